@@ -147,7 +147,7 @@ func solve(scratch string, idx int, body string, seed, timeoutS int, crossCheck 
 	return res
 }
 
-func dischargeAll(results []*UnitResult, scratch string, seed, timeoutS, par int, crossCheck bool) {
+func dischargeAll(results []*UnitResult, scratch string, seed, timeoutS, par int, crossCheck bool, inLedger func(string) bool) {
 	type job struct {
 		res *UnitResult
 		o   *Obligation
@@ -183,8 +183,12 @@ func dischargeAll(results []*UnitResult, scratch string, seed, timeoutS, par int
 			if o.IsCover {
 				to = 5
 			}
+			known := inLedger == nil || inLedger(o.Name)
+			if !known && !o.IsCover {
+				to = 6 // not (yet) in the ledger of discharged obligations: it cannot raise a violation by failing to discharge
+			}
 			sr := solve(scratch, j.idx, body, seed, to, crossCheck && !o.IsCover, false)
-			if sr.status != "unsat" && sr.status != "sat" && !o.IsCover {
+			if sr.status != "unsat" && sr.status != "sat" && !o.IsCover && known {
 				// retry once with another seed and doubled timeout (slow queries are the unstable ones)
 				sr2 := solve(scratch, j.idx, body, seed+7919, to*2, false, false)
 				if sr2.status == "unsat" || sr2.status == "sat" {
